@@ -640,6 +640,22 @@ dis_interval<Number>::widening(const dis_interval<Number> &o,
     // upper bound of the right argument so it cannot be a
     // widening.
 
+    // -- the intervals in the middle can be kept only while the
+    // right argument does not grow there. Keeping (or joining) new
+    // middle intervals at every step produces infinite ascending
+    // chains, e.g., [0,0] | [5,5+k] | [100,100] for k=1,2,... so we
+    // resort to the widening of the convex approximations.
+    for (unsigned int j = 1; j < o.m_list.size() - 1; j++) {
+      bool covered = false;
+      for (unsigned int i = 0; i < m_list.size() && !covered; i++) {
+        covered = (o.m_list[j] <= m_list[i]);
+      }
+      if (!covered) {
+        return dis_interval<Number>(
+            widen_op.apply(approx(m_list), approx(o.m_list)));
+      }
+    }
+
     // -- widen the extremes
     ikos::interval<Number> lb_widen = widen_op.apply(m_list[0], o.m_list[0]);
     ikos::interval<Number> ub_widen = widen_op.apply(
@@ -659,9 +675,9 @@ dis_interval<Number>::widening(const dis_interval<Number> &o,
     //   }
     // }
 
-    // keep all the intervals, normalize will do the rest
+    // keep the intervals in the middle (they cover those of o),
+    // normalize will do the rest
     res.insert(res.end(), m_list.begin() + 1, m_list.end() - 1);
-    res.insert(res.end(), o.m_list.begin() + 1, o.m_list.end() - 1);
 
     res.push_back(ub_widen);
 
